@@ -66,7 +66,20 @@ def catalogue():
     # exception classes that share their bare name with a class of another module
     for i, h in enumerate(sorted(HOMONYM_NAMES)):
         cat.append(dict(kind="raise", cls=h, msg=MSGS[(3 * i + 1) % len(MSGS)]))
+    # the same per-call faults in FIRE-AND-FORGET calls (callRemoteOnly: request id 0, registered nowhere, answered by nobody)
+    for inner in ONE_WAY_INNER:
+        cat.append(dict(kind="only", inner=inner, r6=1))
+    # exception classes with a long ancestry (layered hierarchies, many mixins), raised directly and relayed
+    for i, c in enumerate(DEEP_NAMES):
+        cat.append(dict(kind="raise", cls=c, msg=MSGS[(4 * i + 1) % len(MSGS)], r6=1))
+        if i % 3 == 1:
+            cat.append(dict(kind="relay", cls=c, msg=MSGS[(4 * i + 2) % len(MSGS)], r6=1))
     return cat
+
+
+def base(s):
+    """the call a spec issues, whichever way it is issued (callRemote / callRemoteOnly)"""
+    return s["inner"] if s["kind"] == "only" else s
 
 
 DICT_KEY_VARIANTS = ["int-str", "tuple-hetero", "bytes-str", "nan-decimals", "mixed-nan", "tuple-nested", "tuple-int", "str-tuple-str"]
@@ -75,6 +88,20 @@ OWN_NAMES = ["foolscap:RemoteException", "foolscap:Violation", "foolscap:BananaE
              "foolscap:NegotiationError"]
 HOMONYM_NAMES = ["Rejected@alpha", "Rejected@beta", "Rejected@beta.sub", "TimeoutError@builtins", "TimeoutError@twisted",
                  "ConnectionRefusedError@builtins", "ConnectionRefusedError@twisted", "ValueError@alpha", "ValueError"]
+DEEP_NAMES = ["Mro29", "Mro30", "Mro31", "Mro32", "Mro33", "Mro35", "Mro64", "Mro65", "Mro129", "Mro257", "Mixins45"]
+# what a one-way call can carry: every kind of fault the caller's serializer, the callee's CallUnslicer, the callee's schema, the
+# method or the (never sent) answer can have -- and fault-free calls
+ONE_WAY_INNER = [dict(kind="unserializable", depth=0), dict(kind="unserializable", depth=2, sibling=[7, 8]),
+                 dict(kind="slicer-raises", depth=1, n=1), dict(kind="arg-surrogate", depth=1),
+                 dict(kind="illtyped", depth=0), dict(kind="illtyped", depth=2), dict(kind="unknown-method"),
+                 dict(kind="unknown-method-typed", nested=True), dict(kind="unknown-object"),
+                 dict(kind="raise", cls="ValueError", msg=["ascii", 5]), dict(kind="raise", cls="BadStrError", msg=["ascii", 3]),
+                 dict(kind="raise-badrepr", cls="MyError", msg=["latin", 10]), dict(kind="typed-raise", i=3, known=True),
+                 dict(kind="wrong-arity"), dict(kind="result-unsendable", depth=1), dict(kind="result-violates-callee"),
+                 dict(kind="ok", v=9), dict(kind="dict-keys", variant="tuple-int", depth=1),
+                 dict(kind="multi", target="typed", known=True, slots=["ok", "unsendable", "illtyped"]),
+                 dict(kind="multi", target="typed", known=False, slots=["illtyped", "ok", "ok"]),
+                 dict(kind="gift", mode="refuse", depth=1)]
 NONOK = ("illtyped", "illtyped-deep", "unsendable", "slicer-raises", "surrogate")
 CALLER_SIDE = ("unsendable", "slicer-raises", "surrogate")
 
@@ -157,7 +184,11 @@ def run(ctx):
                 "third-party references (gifts) the callee's Tub refuses or cannot resolve, at depth 0/1/3 and every position; "
                 "every batch is followed by calls whose arguments share containers; targets with a RemoteInterface known / unknown "
                 "to the caller; strings that are exactly words of the negotiated vocabulary table as exception messages, "
-                "arguments, dict keys, method and keyword names), every batch under one of 17 settings of the four Tub logging "
+                "arguments, dict keys, method and keyword names; the same faults in FIRE-AND-FORGET calls (callRemoteOnly, request id 0: 21 kinds -- "
+                "caller's ABORT, callee's rejection, raising / unknown method, unsendable result, refused gift, several faults, fault-free -- "
+                "judged on the siblings, the connection, the methods that ran and the OPEN counters); exception classes with a long ancestry "
+                "(layered hierarchies with an MRO of 29-35, 64, 65, 129, 257 classes, 40 mixins) raised directly and relayed: every class of the "
+                "MRO must reach the caller and answer check()), every batch under one of 17 settings of the four Tub logging "
                 "options (logLocalFailures / logRemoteFailures on caller and callee, or no Tub) and with / without the "
                 "negotiated vocabulary table, both settings of "
                 "unsafeTracebacks and expose-remote-exception-types; non-trivial = distinct batch in which every Deferred "
@@ -328,10 +359,19 @@ def judge_faulty(impl, spec, d, opts):
                     qual(cls), v["module"], v["name"], v["reforwarded"])
         want_parents = [qual(c) for c in inspect.getmro(cls)]
         if len(want_parents) != len(d["parents"]) or not all(trunc_expect(w, 200)(g) for w, g in zip(want_parents, d["parents"])):
-            return "ancestry %r is not that of %s" % (d["parents"], qual(cls))
+            return "ancestry (%d entries: %r%s) is not that of %s (%d entries, root-most %r)" % (
+                len(d["parents"]), d["parents"][:2], " .. %r" % d["parents"][-2:] if len(d["parents"]) > 2 else "", qual(cls),
+                len(want_parents), want_parents[-3:])
         f = d["failure"]
         if len(qual(cls).encode()) <= 200 and (f.check(cls) is None or f.check(LookupError if issubclass(cls, LookupError) else Exception) is None):
             return "Failure.check() does not recognise %s" % qual(cls)
+        # the whole ancestry, root-most classes included (they are what callers trap on)
+        # (twisted's Failure.check maps a CLASS to its qualified name only for subclasses of Exception; BaseException / object /
+        # mixins are asked for by name, which check() accepts as well)
+        lost = [qual(c) for c in inspect.getmro(cls) if len(qual(c).encode()) <= 200 and
+                f.check(c if issubclass(c, Exception) else qual(c)) is None]
+        if lost:
+            return "Failure.check() does not recognise the remote %s as %s (%d of its %d ancestors)" % (qual(cls), lost[-3:], len(lost), len(want_parents))
         if spec["cls"] in UNRENDERABLE:
             # reflect.safe_str's text names the instance by address: only that there IS a rendering can be compared
             return None if isinstance(d["value"], str) and d["value"] else "the unrenderable exception arrived without any text"
@@ -381,6 +421,11 @@ def judge_batch(ctx, impl, specs, opts, r, sigsuffix=""):
                     [s["i"], [(impl.message(["vocab", s["i"]]).replace("-", "_"), 1)]])
             if d is None or not d["ok"] or d["value"] != want:
                 bad.append(("oracle/sibling-affected", "fault-free call %d (%s, expects %r) got %r" % (i, s["kind"], want, short(d))))
+        elif s["kind"] == "only":
+            # a one-way call has no Deferred: what it must not do is judged on the siblings, the connection, the methods that ran
+            # and the OPEN counters below
+            if d is not None or r["fired"][i]:
+                bad.append(("oracle/sibling-affected", "one-way call %d delivered a result to somebody: %r" % (i, short(d))))
         elif s["kind"] == "shared":
             if d is None or not d["ok"] or not impl.shared_ok(s["variant"], d["value"]):
                 bad.append(("oracle/later-call-affected", "fault-free call %d whose argument %r contains the same container more than "
@@ -402,7 +447,7 @@ def judge_batch(ctx, impl, specs, opts, r, sigsuffix=""):
             "typed-raise": "tboom", "mixed-keys": "echo", "dict-keys": "echo", "ok-badrepr": "echo", "raise-badrepr": "boom", "raise": "boom", "raise-noargs": "boom_noargs",
             "result-violates-callee": "wrongresult", "result-violates-caller": "text", "result-unsendable": "unsendable_result"}
     want_exec = []
-    for s in specs:
+    for s in map(base, specs):
         if s["kind"] in runs:
             want_exec.append(runs[s["kind"]])
         elif s["kind"] == "multi" and isinstance(multi_expect(s), tuple):
@@ -410,7 +455,7 @@ def judge_batch(ctx, impl, specs, opts, r, sigsuffix=""):
         elif s["kind"] == "relay":
             want_exec.append("relay")
     want_exec += ["add", "echo"]
-    want_far = ["boom" for s in specs if s["kind"] == "relay"]
+    want_far = ["boom" for s in map(base, specs) if s["kind"] == "relay"]
     if r["far_executed"] != want_far and not any(r["disconnected"]):
         bad.append(("oracle/wrong-calls-executed", "the third party ran %s, the batch relays %s" % (r["far_executed"], want_far)))
     if r["executed"] != want_exec and not any(r["disconnected"]):
@@ -428,21 +473,23 @@ def judge_batch(ctx, impl, specs, opts, r, sigsuffix=""):
 
 
 def run_one(ctx, impl, specs, opts, tag, sigsuffix=""):
-    gifts = [s for s in specs if s["kind"] == "gift"]
+    gifts = [base(s) for s in specs if base(s)["kind"] == "gift"]
     if gifts:       # one Tub on the callee per batch: every gift of the batch fails the same way
         mode = gifts[0]["mode"]
-        specs[:] = [dict(s, mode=mode) if s["kind"] == "gift" else s for s in specs]
+        specs[:] = [dict(s, mode=mode) if s["kind"] == "gift" else dict(s, inner=dict(s["inner"], mode=mode)) if base(s)["kind"] == "gift"
+                    else s for s in specs]
         opts = dict(opts, gift_mode=mode)
     with impl.quiet():
         r = impl.run_batch(specs, opts)
     fine = judge_batch(ctx, impl, specs, opts, r, sigsuffix)
-    nontrivial = all(r["fired"]) and all((d is not None and (not d["ok"] or s["kind"] in ("ok", "ok-add", "shared", "mixed-keys", "dict-keys", "ok-badrepr", "multi", "ok-vocab", "vocab-method", "typed-ok")))
-                                         for s, d in zip(specs, r["results"]))
+    nontrivial = all((s["kind"] == "only" and d is None) or
+                     (f and d is not None and (not d["ok"] or s["kind"] in ("ok", "ok-add", "shared", "mixed-keys", "dict-keys", "ok-badrepr", "multi", "ok-vocab", "vocab-method", "typed-ok")))
+                     for s, d, f in zip(specs, r["results"], r["fired"]))
     ctx.case([tag, specs, opts], nontrivial=nontrivial and fine)
     for s, d in zip(specs, r["results"]):
         if s["kind"] not in ("ok", "ok-add", "shared", "ok-vocab", "vocab-method", "typed-ok"):
-            ctx.hist("fault_kind", s["kind"])
-            ctx.hist("faulty_outcome", "not-fired" if d is None else "ok" if d["ok"] else
+            ctx.hist("fault_kind", s["kind"] if s["kind"] != "only" else "one-way " + s["inner"]["kind"])
+            ctx.hist("faulty_outcome", "one-way" if s["kind"] == "only" and d is None else "not-fired" if d is None else "ok" if d["ok"] else
                      ("wrapped " if d["wrapped"] else "") + ("remote " if d["copied"] else "local ") +
                      (s.get("cls") or d["type"].split(".")[-1])[:30])
     return r
@@ -503,6 +550,9 @@ def sweep(ctx, impl):
                     continue
                 if ctx.tier != "thorough" and f.get("r5") and pos == (ci + 2) % 3:
                     continue        # quick: the catalogue entries of round 5 at two of the three positions (rotating)
+                if ctx.tier != "thorough" and f.get("r6") and (pos != ci % 3 or (ci + ctx.seed) % 3):
+                    continue        # quick: a third of those of round 6 (rotating with VERIF_SEED), each at one position (rotating);
+                                    # a fixed witness of each family is in the corpus
                 specs = [dict(kind="ok", v=100 + i) if i % 2 == 0 else dict(kind="ok-add", v=200 + i) for i in range(3)]
                 specs[pos] = f
                 # after every per-call fault: calls whose arguments share a container, in the same batch and later
@@ -639,6 +689,7 @@ def tree_of(impl, v, seen):
 
 def call_tree(impl, spec):
     """the CallSlicer of one callRemote as an `item`; None if the call never reaches Broker.send"""
+    spec = base(spec)       # (a one-way call is the same `call` sequence with request id 0)
     k = spec["kind"]
     kw = {}
     if k == "ok":
@@ -709,7 +760,7 @@ def corr_send(ctx, impl, batches):
     the real Banana.produce vs `run` of lib/Send.v on the trees of the CallSlicers; and which objectSentDeferreds failed"""
     later_add = call_tree(impl, dict(kind="ok-add", v=40))
     # with a gift in the batch the callee calls back (decgift) and the caller writes answers of its own: oracle only
-    batches = [b for b in batches if not any(s["kind"] == "gift" for s in b[0])]
+    batches = [b for b in batches if not any(base(s)["kind"] == "gift" for s in b[0])]
     shard = 150
     nbad = 0
     total = 0
@@ -740,8 +791,10 @@ Eval vm_compute in map (fun c => let s := run (init (fst c)) (flat_map events_of
             # which calls' sends were aborted on the real side: the caller saw a local, uncopied Violation that is not about the answer
             real_log = []
             for s, d in zip(specs, r["results"]):
-                aborted = (s["kind"] in ("unserializable", "slicer-raises", "arg-surrogate") or
-                           (s["kind"] == "multi" and multi_expect(s) == "local")) and d is not None and not d["ok"] and not d["copied"]
+                caller_fault = (base(s)["kind"] in ("unserializable", "slicer-raises", "arg-surrogate") or
+                                (base(s)["kind"] == "multi" and multi_expect(base(s)) == "local"))
+                # (a one-way call has no Deferred to consult: the written tokens, compared below, show the ABORT)
+                aborted = caller_fault and (s["kind"] == "only" or (d is not None and not d["ok"] and not d["copied"]))
                 real_log.append(1 if aborted else 0)
             real_log += [0, 0]
             real_up = not r["disconnected"][0]
@@ -822,6 +875,11 @@ def failure_cases(ctx, impl):
     cases.append(("ValueError", u"\udcff" * 600, True, None, None))
     cases.append(("OSError", u"x" * 990 + u"\ud800\udfff" * 3, False, None, None))   # the cut falls inside an escape
     cases.append(("MyError", "m", False, [u"p\udc80" * 40, "builtins.object"], None))
+    # long ancestries: real layered hierarchies / many mixins, and substituted lists around the customary list limits
+    for c in DEEP_NAMES[(0 if ctx.tier == "thorough" else 2)::(1 if ctx.tier == "thorough" else 4)]:
+        cases.append((c, "deep", False, None, None))
+    for n in ((0, 1, 29, 30, 31, 32, 63, 64, 65, 128, 129, 300) if ctx.tier == "thorough" else (30, 31, 129)):
+        cases.append(("MyError", "m", bool(n % 2), ["app.layer%d.E%d" % (i, i) for i in range(n)], None))
     cases.append(("BadStrError", "x", False, None, None))                  # str() raises: reflect.safe_str's text
     cases.append(("BadStrError", "x", True, None, None))
     for c in UNRENDERABLE[1:]:
@@ -850,6 +908,13 @@ def corr_failure(ctx, impl):
     for cls, msg, unsafe, parents, tb in cases:
         c = impl.EXC_CLASSES[cls]
         st, inp = impl.failure_state(c, msg, unsafe, parents, tb)
+        if isinstance(st, dict) and (len(st["parents"]) != len(inp["parents"]) or not all(
+                trunc_expect(w, 200)(g.decode("utf-8", "replace")) for w, g in zip(inp["parents"], st["parents"]))):
+            # "identifies the remote exception's type by class name AND ancestry": one entry per class of the MRO, in order
+            ctx.fail("oracle/failure-misreported", "getStateToCopy sends %d of the %d classes of the ancestry of %s (kept: %s .. %s; the MRO "
+                     "ends in %s): the caller's Failure.check()/trap() no longer recognise the dropped ancestors" % (
+                         len(st["parents"]), len(inp["parents"]), inp["type"], ascii(st["parents"][:1]), ascii(st["parents"][-1:]), inp["parents"][-3:]),
+                     replay=dict(cls=cls, n_parents=len(inp["parents"]), sent=len(st["parents"]), unsafe=unsafe, parents_tail=inp["parents"][-4:]))
         if isinstance(st, dict):
             o = [1, [len(st["type"]), h(st["type"])], [len(st["value"]), h(st["value"])], [len(st["traceback"]), h(st["traceback"])],
                  [[len(p), h(p)] for p in st["parents"]]]
